@@ -118,6 +118,12 @@ def proj_class(reply):
     return klass(reply)
 
 
+def proj_returns(reply):
+    """C05 projection: does the call return (value or error) or does it panic / hang / kill the process"""
+    k = klass(reply)
+    return k if k in ("panic", "hang", "crash", "bad") else "returns"
+
+
 def mk_pkt(pusi, afc, aflen, payload, rng, pid=0x100, cc=5):
     """188-byte transport packet: header, adaptation field of aflen bytes when afc has bit 2, then the payload bytes"""
     p = bytearray([0x47, (0x40 if pusi else 0) | (pid >> 8), pid & 0xff, (afc << 4) | cc])
@@ -313,6 +319,10 @@ def gen(rng, tier):
             m = bytearray(s[:40]); i = rng.randrange(len(m)); m[i] ^= 1 << rng.randrange(8)
             out.append(Case("pes.new " + hx(m), kind="malformed-bitflip", decides=False, nontrivial=False, proj=proj_class,
                             theorem="new_pes_header_total"))
+    # the same malformed inputs decide the C05 clause "returns a value or an error, never panics" (proved of the model:
+    # C11_new_pes_header_total), so a panic of the real code is reported with that input as the replay
+    for c in [c for c in out if c.kind.startswith("malformed")]:
+        out.append(Case(c.line, kind=c.kind + "-c05", theorem="C11_new_pes_header_total", proj=proj_returns, nontrivial=False))
     for _ in range(300 if tier == "quick" else 20000):
         m = bytes(rng.randrange(256) for _ in range(rng.randrange(0, 40)))
         out.append(Case("pes.new " + hx(m), kind="malformed-random", decides=False, nontrivial=False, proj=proj_class,
@@ -320,13 +330,16 @@ def gen(rng, tier):
         pk = bytearray(rng.randrange(256) for _ in range(188)); pk[0] = 0x47
         out.append(Case("pes.aligned " + hx(pk), kind="malformed-random-packet", decides=False, nontrivial=False, proj=proj_class,
                         theorem="aligned_pusi_total"))
+        out.append(Case("pes.new " + hx(m), kind="malformed-random-c05", theorem="C11_new_pes_header_total", proj=proj_returns, nontrivial=False))
+        out.append(Case("pes.aligned " + hx(pk), kind="malformed-random-packet-c05", theorem="C11_pkt_pes_header_no_panic", proj=proj_returns,
+                        nontrivial=False))
         out.append(Case("pes.pkt " + hx(pk), kind="random-packet", theorem="C11_pkt_pes_header_iff", proj=proj_pkt))
     return out
 
 
 def oracle(c, real, model):
     want = EXPECT.get(c.line)
-    if want is None or not c.decides:
+    if want is None or not c.decides or c.kind.endswith("-c05"):
         return None
     proj = c.proj or (lambda x: x)
     try:
@@ -362,6 +375,8 @@ def search(c, rng):
 
 def case_of_line(line, kind):
     op = line.split(" ")[0]
+    if kind.endswith("-c05"):
+        return Case(line, kind=kind, proj=proj_returns)
     if kind.startswith("malformed") or kind.startswith("aligned-pusi-truncated") or kind == "aligned-af-lengths":
         return Case(line, kind=kind, decides=False, proj=proj_class if kind.startswith("malformed") else None)
     if kind == "withpes-no-room":
